@@ -22,7 +22,7 @@ import sys
 import time
 
 VERIF = os.path.dirname(os.path.dirname(os.path.abspath(__file__)))
-REPO = '/repo'
+REPO = os.environ.get('VERIF_REPO', '/repo')   # override only for tools/mutants.py workers (scratch copies); registered checks use /repo
 CACHE = os.path.join(VERIF, '.cache')
 TARGET = os.path.join(CACHE, 'target')
 DUMP = os.path.join(CACHE, 'dump')
@@ -150,7 +150,12 @@ def regen(core_out, prof_out):
     spec = sh([sys.executable, os.path.join(VERIF, 'tools', 'ucd_spec.py'), os.path.join(VERIF, 'reference'), GEN], check=False)
     if spec.returncode != 0:
         raise RuntimeError('ucd_spec failed: ' + spec.stdout)
-    return (r.stdout.strip() + ' ' + spec.stdout.strip()).strip()
+    # declarative fragments of the Rust logic (loop bound of stabilize, context-rule registry, decision list, class
+    # callbacks) translated from the source text: theorems in Facts/SrcTie.lean are re-checked against them
+    sf = sh([sys.executable, os.path.join(VERIF, 'tools', 'srcfacts.py'), REPO, GEN], check=False)
+    if sf.returncode != 0:
+        raise RuntimeError('srcfacts failed: ' + sf.stdout)
+    return (r.stdout.strip() + ' ' + spec.stdout.strip() + ' ' + sf.stdout.strip()).strip()
 
 
 def lake_build(targets, timeout=3000):
@@ -545,7 +550,7 @@ class Ctx:
         self.changed_files, self.extra_cps, self.extra_nums = source_changes()
         prop_files = PROP_FILES.get(pid, [])
         self.escalated = [f for f in self.changed_files if any(f == pf or f.startswith(pf.rstrip('/') + '/') for pf in prop_files)] if prop_files else list(self.changed_files)
-        if self.escalated and tier == 'quick':
+        if self.escalated and tier == 'quick' and not os.environ.get('VERIF_NO_ESCALATE'):
             tier = 'thorough'
         self.tier = tier
         self.seed = seed
